@@ -1,4 +1,5 @@
 import Rivaas.Lemmas.OpenAPIGen
+set_option linter.unusedSimpArgs false
 /-
 C07 — helper lemmas: the registry invariant and reference closure through request parameters,
 request bodies, responses, `buildOperation` and the loops of `Build`.
